@@ -59,7 +59,7 @@ type PreStop struct {
 // (the target itself included: a second stop request for the same actor).
 type ConcStop struct {
 	Node int    `json:"node"`
-	How  string `json:"how"`  // stop | poison
+	How  string `json:"how"`  // stop | poison | crash (the node has MaxRestarts 0 and is sent a message it panics on)
 	When string `json:"when"` // before | after | race
 }
 
@@ -96,6 +96,8 @@ type harness struct {
 	mu    sync.Mutex
 	nodes []*nodeState
 	kids  [][]int
+	// mortal: nodes spawned with MaxRestarts 0 because a concurrent "crash" is planned for them
+	mortal map[int]bool
 }
 
 func (h *harness) descendants(i int) []int {
@@ -254,13 +256,23 @@ func run(c TCase) (map[string]int, error) {
 		opts = append(opts, actor.WithContext(cancelledCtx()))
 		feat["spawned-with-a-cancelled-context"]++
 	}
-	if c.Target == 0 && c.How == "crash" {
+	rootMortal := c.Target == 0 && c.How == "crash"
+	for _, cs := range c.Conc {
+		rootMortal = rootMortal || (cs.How == "crash" && cs.Node == 0)
+	}
+	if rootMortal {
 		opts = append(opts, actor.WithMaxRestarts(0))
 	}
-	// only the node that is crashed to death has MaxRestarts 0: SpawnChild options are per node
+	// only the nodes that are crashed to death have MaxRestarts 0: SpawnChild options are per node
 	crashNode := -1
 	if c.How == "crash" {
 		crashNode = c.Target
+	}
+	h.mortal = map[int]bool{}
+	for _, cs := range c.Conc {
+		if cs.How == "crash" && cs.Node >= 0 && cs.Node < len(c.Nodes) {
+			h.mortal[cs.Node] = true
+		}
 	}
 	e.Spawn(func() actor.Receiver {
 		return recv(func(ctx *actor.Context) {
@@ -339,7 +351,7 @@ func run(c TCase) (map[string]int, error) {
 		return nil
 	}
 	for i, nd := range c.Nodes {
-		if !nd.CrashOnce || !alive[i] || i == crashNode || nd.Stillborn {
+		if !nd.CrashOnce || !alive[i] || i == crashNode || nd.Stillborn || h.mortal[i] {
 			continue
 		}
 		h.mu.Lock()
@@ -473,6 +485,14 @@ func run(c TCase) (map[string]int, error) {
 	var concs []*concRun
 	issue := func(cr *concRun) {
 		var d <-chan struct{}
+		if cr.cs.How == "crash" {
+			// death by max-restarts while an ancestor is being shut down: no context to watch; the
+			// verdict is the one on the shutdown itself (nobody in the subtree is left behind)
+			e.Send(h.nodes[cr.cs.Node].pid, crashMsg{})
+			close(cr.sent)
+			close(cr.ctx)
+			return
+		}
 		if cr.cs.How == "stop" {
 			d = e.Stop(h.nodes[cr.cs.Node].pid).Done()
 		} else {
@@ -514,6 +534,9 @@ func run(c TCase) (map[string]int, error) {
 		}
 		if cr.cs.Node == c.Target {
 			feat["second-stop-request-for-the-target"]++
+		}
+		if cr.cs.How == "crash" && cr.cs.Node != c.Target {
+			feat["descendant-dies-of-max-restarts-during-the-shutdown"]++
 		}
 	}
 	start := make(chan struct{})
@@ -620,7 +643,7 @@ func (h *harness) receiveWith(i int, c *actor.Context, crashNode int) {
 			for _, k := range h.kids[i] {
 				k := k
 				opts := []actor.OptFunc{actor.WithID(fmt.Sprint(k)), actor.WithRestartDelay(0)}
-				if k == crashNode || h.c.Nodes[k].Stillborn {
+				if k == crashNode || h.c.Nodes[k].Stillborn || h.mortal[k] {
 					opts = append(opts, actor.WithMaxRestarts(0))
 				}
 				if h.c.Nodes[k].CtxCancelled {
@@ -706,7 +729,7 @@ func gen(t *rapid.T) TCase {
 		for i := 0; i < nc && len(subtree) > 0; i++ {
 			c.Conc = append(c.Conc, ConcStop{
 				Node: rapid.SampledFrom(subtree).Draw(t, "conc"),
-				How:  rapid.SampledFrom([]string{"stop", "poison"}).Draw(t, "conchow"),
+				How:  rapid.SampledFrom([]string{"stop", "poison", "poison", "crash"}).Draw(t, "conchow"),
 				When: rapid.SampledFrom([]string{"before", "after", "race", "race"}).Draw(t, "concwhen"),
 			})
 		}
